@@ -567,14 +567,33 @@ func runC13(c *Ctx) {
 	checkOffsetStores(c, "R7", map[string]bool{"(*File).ReadFrom": true, "(*File).readFromWithConcurrency": true})
 
 	// ---------- R4 sequential loops ----------
-	for _, spec := range []struct{ fn, callee string }{
-		{"(*File).readAtSequential", "readChunkAt"}, {"(*File).writeAt", "writeChunkAt"}, {"(*File).writeToSequential", "readChunkAt"}, {"(*File).ReadFrom", "writeChunkAt"},
-	} {
-		fn := p.Func(spec.fn)
-		if fn == nil {
-			c.missing("R4", spec.fn)
+	// every loop, in any method of File, that transfers chunk after chunk through readChunkAt / writeChunkAt (found by
+	// the call in a loop, so that it does not matter which method holds the loop today)
+	type seqSpec struct {
+		fn     string
+		f      *ssa.Function
+		callee string
+	}
+	var seqLoops []seqSpec
+	for _, f := range p.LibFuncs() {
+		if f.Package() != p.Sftp || f.Signature.Recv() == nil || typeName(f.Signature.Recv().Type()) != "File" || f.Name() == "readChunkAt" || f.Name() == "writeChunkAt" {
 			continue
 		}
+		for _, callee := range []string{"readChunkAt", "writeChunkAt"} {
+			inLoopCall := false
+			for _, site := range callsWhere(f, func(cc *ssa.CallCommon) bool { return calleeName(cc) == callee }) {
+				if innermostLoop(loopsOf(f), site.Block()) != nil {
+					inLoopCall = true
+				}
+			}
+			if inLoopCall {
+				seqLoops = append(seqLoops, seqSpec{fnName(f), f, callee})
+			}
+		}
+	}
+	c.check(len(seqLoops) >= 4, "R4", "sequential chunk loops", "?", fmt.Sprintf("%d loops", len(seqLoops)), fmt.Sprintf("only %d sequential chunk loops found (sequential ReadAt, WriteAt, WriteTo, ReadFrom expected)", len(seqLoops)))
+	for _, spec := range seqLoops {
+		fn := spec.f
 		c.looked(spec.fn)
 		for _, site := range callsWhere(fn, func(cc *ssa.CallCommon) bool { return calleeName(cc) == spec.callee }) {
 			l := innermostLoop(loopsOf(fn), site.Block())
@@ -610,13 +629,18 @@ func runC13(c *Ctx) {
 			for v := range errVals {
 				for _, r := range *v.Referrers() {
 					b, ok := r.(*ssa.BinOp)
-					if !ok || b.Op != token.NEQ || !isNilConst(b.Y) {
+					if !ok || (b.Op != token.NEQ && b.Op != token.EQL) || !isNilConst(b.Y) {
 						continue
+					}
+					// `err != nil` and `switch err { case nil: … }` are the same test
+					errSide := 0
+					if b.Op == token.EQL {
+						errSide = 1
 					}
 					for _, rr := range *b.Referrers() {
 						if iff, ok := rr.(*ssa.If); ok && l.blocks[iff.Block()] {
 							tested = true
-							if reachFromBlock(iff.Block().Succs[0], isLoopHeadStart(l), nil) {
+							if reachFromBlock(iff.Block().Succs[errSide], isLoopHeadStart(l), nil) {
 								reLoops = true
 							}
 						}
